@@ -87,8 +87,14 @@ def generate(rng, tier):
         glob = rng.choice(globs)
         if rng.random() < 0.15 and files:
             glob = base + "/" + rng.choice(sorted(files))      # no star: id = base name
-        cases.append({"kind": "srv", "_base": base, "_files": {k: [l.hex() for l in v] for k, v in files.items()}, "_glob": glob,
-                      "payloads": [("cat: %s regex:noop " % glob).encode().hex()], "cat_limit": rng.choice([1, 2, 3]), "private_limiter": True,
+        # the client may spell the glob with redundant path elements; the server cleans it before it derives the ids
+        spelled = glob
+        if rng.random() < 0.35:
+            rel = glob[len(base):]
+            k = rng.choice([j for j, ch in enumerate(rel) if ch == "/"])
+            spelled = base + rel[:k] + rng.choice(["//", "/./", "/x/../"]) + rel[k + 1:]
+        cases.append({"kind": "srv", "_base": base, "_files": {k: [l.hex() for l in v] for k, v in files.items()}, "_glob": glob, "_spelled": spelled,
+                      "payloads": [("cat: %s regex:noop " % spelled).encode().hex()], "cat_limit": rng.choice([1, 2, 3]), "private_limiter": True,
                       "read_buf": rng.choice([64, 4096, 32768]), "read_delay_us": rng.choice([0, 0, 50, 400]), "wait_ms": 6000,
                       "_host": rng.choice(["alpha", "beta"])})
     # (2) client handlers
@@ -168,7 +174,7 @@ def _e2e(env, v):
     glob = base + "/*/app*.log"
     grep = v % 2 == 1
     tool = "dgrep" if grep else "dcat"
-    args = ["--noColor", "--files", glob] + (["--regex", "keep|L{100}"] if grep else [])
+    args = ["--noColor", "--files", glob] + (["--regex", "keep|L{100}", "--before", "2", "--after", "1"] if grep else [])
     rc, out, err = env.client(tool, args, servers=servers, timeout=300)
     for s in servers:
         s.stop()
@@ -347,7 +353,12 @@ def judge(cases, obs, tier):
                 for k, h in enumerate(o["hosts"]):
                     for rel, lines in big["files"].items():
                         if rel.startswith(("shared/", "s%d/" % k)):
-                            sel = [(n + 1, l, 100) for n, l in enumerate(lines) if (not o["grep"]) or b"keep" in l or b"L" * 100 in l]
+                            if o["grep"]:
+                                from props import c03
+                                hit = [(b"keep" in l or b"L" * 100 in l) for l in lines]
+                                sel = [(n + 1, lines[n], 100) for n in c03.py_spec(hit, 2, 1, 0)]
+                            else:
+                                sel = [(n + 1, l, 100) for n, l in enumerate(lines)]
                             if sel:
                                 want[(h, rel)] = sel
                 for key in sorted(set(groups) | set(want)):
@@ -384,7 +395,7 @@ def sample(c, o):
     if c["kind"] == "gid":
         return {"kind": "gid", "path": bytes.fromhex(c["path"]).decode(), "glob": bytes.fromhex(c["glob"]).decode(), "id": bytes.fromhex((o or {}).get("id", "")).decode("utf-8", "replace")}
     if c["kind"] == "srv":
-        return {"kind": "srv", "glob": c["_glob"], "files": {k: len(v) for k, v in c["_files"].items()}, "cat_limit": c["cat_limit"], "read_buf": c["read_buf"],
+        return {"kind": "srv", "glob": c.get("_spelled", c["_glob"]), "files": {k: len(v) for k, v in c["_files"].items()}, "cat_limit": c["cat_limit"], "read_buf": c["read_buf"],
                 "host": c["_host"], "frames": len((o or {}).get("frames") or []), "source_switches": c.get("_sched_switches")}
     if c["kind"] == "tail":
         return {"kind": "tail", "cap": c["cap"], "events": len(c["events"]), "delivered": [(l["n"], l["p"]) for l in ((o or {}).get("got") or [])][:12], "dropped_lines": c.get("_drops")}
